@@ -6,7 +6,7 @@
    on the model of the recorded finding (split TRIG sections). *)
 From Coq Require Import String NArith List Bool.
 From RC Require Import lib.Result lib.Bytes model.Layout model.Str model.StrEditor model.Alloc model.ChkIo model.RichCodec
-  model.RichIo proofs.C07_proofs proofs.C08_proofs proofs.C10_proofs.
+  model.RichIo proofs.C07_proofs proofs.C08_proofs proofs.C10_proofs proofs.Save_strings proofs.C07_untouched.
 Import ListNotations.
 Local Open Scope N_scope.
 
@@ -49,3 +49,30 @@ Theorem C07_split_trig_sections_refuted :
   add_triggers [t] [RTrig [t]; RTrig [t2]] = Ok [RTrig [t; t]; RTrig [t; t]].
 Proof. exact split_trig_refuted. Qed.
 Print Assumptions C07_split_trig_sections_refuted.
+
+(* SECTIONS THE EDITS GIVE NO REASON TO CHANGE.  The base map r0 and ANY edited map r' that still holds the same decoded
+   STR section and the same sound table / unit settings at position i are saved - each with its own new strings, locations,
+   switches and unit-property sets, with or without sound metadata.  Position i of the two outputs is the same section,
+   byte for byte (whatever else differs).  Reason (Save_strings): both string tables are growths of the base table, and a
+   growth never renumbers a text the base table knew. *)
+Theorem C07_untouched_sound_table_and_unit_settings_are_identical :
+  forall r0 r' wd0 wd' d0 d' m bin T i s,
+    filter (named "STR ") r0 = [RDecodedStr "STR " 2 m] ->
+    filter (named "STR ") r' = [RDecodedStr "STR " 2 m] ->
+    wf_table 2 m bin -> build_lookup 2 m = Ok T ->
+    Forall clean (flat_map section_strings r0) -> Forall clean (flat_map section_strings r') ->
+    nth_error r0 i = Some s -> nth_error r' i = Some s -> names_known T s ->
+    save wd0 r0 = Ok d0 -> save wd' r' = Ok d' ->
+    nth_error d' i = nth_error d0 i.
+Proof. exact untouched_string_section_is_identical. Qed.
+Print Assumptions C07_untouched_sound_table_and_unit_settings_are_identical.
+
+(* every string id keeps its number: the id -> text lookup of the grown table is the old lookup followed by the new texts,
+   none of which the old lookup held *)
+Theorem C07_string_ids_are_never_renumbered :
+  forall w req t bin t' T T',
+    wf_table w t bin -> Forall clean req -> add_strings w req t = Ok t' ->
+    build_lookup w t = Ok T -> build_lookup w t' = Ok T' ->
+    exists U, T' = T ++ U /\ NoDup U /\ (forall s, In s U -> In s req /\ ~ In s T) /\ (forall s, In s req -> In s (T ++ U)).
+Proof. exact add_strings_lookup. Qed.
+Print Assumptions C07_string_ids_are_never_renumbered.
